@@ -4,10 +4,12 @@ C16 — Key-path syntax parses to its meaning, prints back faithfully and never 
 sharing `raw_string` / `string` / `check_escaped` / `util::parse_string` with the JSONPath parser.
 -/
 import JsonbModel.Proofs.PathFuel
+import JsonbModel.Proofs.PathRoundTrip2
 import JsonbModel.Proofs.PathRoundTrip
 
 namespace Jsonb.Props
 open Jsonb
+open PathRT2
 
 /-- for EVERY byte string the parser returns key paths or an error: no panic site is reachable
 (unterminated quotes, missing braces, truncated escapes included) and the fuel never runs out -/
@@ -30,5 +32,16 @@ example : (parseKeyPaths [0x7B, 0x22, 0x61, 0x62, 0x63]).isOk = false ∧
     (parseKeyPaths [0x7B, 0x22, 0x61, 0x62, 0x63]).isPanic = false := by decide +kernel
 example : [KeyPath.index (-2), .name [0x61], .quoted [0x62, 0x20, 0x63], .quoted []].all PathRT.goodKP = true := by
   decide +kernel
+
+/-- **every brace-delimited list with any spacing**: `RKeyList ks t` = `t` renders the elements
+`ks` (a decimal i32 → index, a quoted string with its escapes decoded → quoted name, anything else
+made of name characters → plain name) with arbitrary white-space runs around elements and commas;
+every such text, with white space around the braces, parses to `ks` -/
+theorem C16_every_rendering {ks : List KeyPath} {t : Bytes} (h : PathRT2.RKeyList ks t) (w0 w1 : Bytes)
+    (hw0 : PathRT2.Ws w0) (hw1 : PathRT2.Ws w1) : parseKeyPaths (w0 ++ 123 :: (t ++ 125 :: w1)) = .ok ks :=
+  parseKeyPaths_rendering h w0 w1 hw0 hw1
+/-- the empty list with any spacing is the empty path -/
+theorem C16_empty_any_spacing (w0 w w1 : Bytes) (hw0 : PathRT2.Ws w0) (hw : PathRT2.Ws w) (hw1 : PathRT2.Ws w1) :
+    parseKeyPaths (w0 ++ 123 :: (w ++ 125 :: w1)) = .ok [] := parseKeyPaths_rendering_empty w0 w w1 hw0 hw hw1
 
 end Jsonb.Props
